@@ -84,8 +84,16 @@ def run(prop, tier, apis=None):
         effect, outcome = (m.group(1), m.group(2)) if m else ("none", "panic" if "panics" in steps else "return")
         if p["api"] == "Arc::into_thin":
             effect = "mismatch"
+        cn_override = None
+        if p["api"] == "Arc::from_header_and_iter":
+            mk = re.search(r"Iterator::next panics at call (\d+)", steps)
+            effect = "panic_at_" + (mk.group(1) if mk else "0")
+            outcome = "panic" if mk else "return"
+            cn_override = p.get("n_items", 0)
         # native replay at the smallest count that satisfies the path (1 or 2)
         cn = 1 if re.search(r"\bc == 1\b|1 == c", p["pc"]) and "Not(1 == c)" not in p["pc"] and "Not(c == 1)" not in p["pc"] else 2
+        if cn_override is not None:
+            cn = cn_override
         nat = native_replay(p["api"], effect, outcome, cn)
         reproduced = any(r["exit"] not in (0, None) for r in nat)
         key = f"{prop}:unwind:{p['api']}:{effect}:{outcome}:{p['exit']}"
@@ -106,6 +114,7 @@ def run(prop, tier, apis=None):
         "apis": sorted(set(p["api"] for p in paths)),
         "functions_symbolically_executed": sorted(set(p["fn"] for p in paths)),
         "paths": len(paths), "paths_leaving_by_unwind": sum(1 for p in paths if p["exit"] == "unwind"),
+        "iterator_summary": "honest iterator of 0, 1, 2 items whose next() may panic at every call (k = 1..calls+1); lying iterators are decided by the Kani half",
         "callback_summaries": "Clone::clone {returns, panics}; callback {no effect, keeps a clone, replaces the Arc (only &mut)} x {returns, panics}; into_thin: symbolic recorded vs real slice length",
         "samples": samples,
     }
